@@ -454,6 +454,71 @@ func handOverRules(c *Ctx, rule, rule3 string) {
 			} else {
 				c.Fail(rule, "violation", FuncName(g.fn), "current owner: create role added to the new holder (same shard)", pos, "the new holder gets the counter but not the role")
 			}
+			// on the same shard the install is not optional: with the new holder in this shard every successful path has passed
+			// the counter write and the role addition (by then the old holder is zeroed and stripped; nothing else delivers them)
+			var sameShard []Fact
+			findSameShard := func(env *Env) {
+				for _, fs := range env.EdgeFacts() {
+					for _, f := range fs {
+						if f.Pos && len(f.Or) == 0 && len(sameShard) == 0 && strings.HasPrefix(f.Key(), "B:zero(") && strings.Contains(f.Key(), "Coordinator.ComputeId(") && strings.Contains(f.Key(), "Coordinator.SelfId(") {
+							sameShard = []Fact{f}
+						}
+					}
+				}
+			}
+			findSameShard(ge)
+			for _, rcall := range roleOps {
+				for _, l := range rcall.chain {
+					findSameShard(l.env)
+				}
+			}
+			if moved && added && len(sameShard) > 0 {
+				// at every level of the chain that leads to the operation: given the same shard, the call cuts every success return
+				cutUnderIn := func(env *Env, call ssa.CallInstruction) bool {
+					pred := func(f Fact) bool { return !f.Lin && f.Pos && f.Call == call && strings.HasPrefix(f.Atom, "ok:") }
+					for _, ret := range returnsOf(env.Fn) {
+						if !isSuccessReturn(ret) || env.unreachableUnder(ret.Block(), sameShard) {
+							continue
+						}
+						if _, ok := env.CutAt(ret, pred, sameShard); !ok {
+							return false
+						}
+					}
+					return true
+				}
+				okAll, what := true, ""
+				for _, w := range g.writes {
+					if w.acct != x.dst && w.token == rd.token {
+						var call ssa.CallInstruction = w.s.In.(ssa.CallInstruction)
+						for y := w.s.Env; y != nil; y = y.Parent {
+							if !cutUnderIn(y, call) {
+								okAll, what = false, "the counter write"
+							}
+							if y == ge || y.Parent == nil {
+								break
+							}
+							call = y.Call
+						}
+					}
+				}
+				for _, rcall := range roleOps {
+					if rcall.acct != x.dst && rcall.adds {
+						for _, l := range rcall.chain {
+							if !cutUnderIn(l.env, l.call) {
+								okAll, what = false, "the role addition"
+							}
+						}
+					}
+				}
+				construct := "current owner: same-shard install on every successful path"
+				if okAll {
+					c.OK(rule, FuncName(g.fn), construct, pos, "given "+sameShard[0].Key()+", counter write and role addition cut every success return")
+				} else {
+					c.FailX(Oblig{Rule: rule, Func: FuncName(g.fn), Construct: construct, Pos: pos, Kind: "violation",
+						Detail:   "with the new holder in the same shard the hand-over can succeed without " + what + ": the old holder is already zeroed and stripped, so the role and the counter are lost (or the new holder restarts at 0)",
+						Expected: "counter write and role addition on every successful same-shard path"})
+				}
+			}
 			// the message ships token and counter
 			shipped := false
 			isData := func(in ssa.Instruction) (string, bool) {
